@@ -68,6 +68,17 @@ def check_one(kind, n, k, full=True):
         list(ds.items())
         if n:
             ds[keys[0]]
+    if n and (n + 2 * k) % 3 == 0:
+        # other datasets were DERIVED from the object before it is split (an epoch of shuffled tiles, a one-time
+        # shuffle, a sorted view, a shard): what they computed is theirs, the object still splits in its own order
+        try:
+            list(ds.tile(2, shuffle=True))
+            list(ds.shuffle(False))
+            list(ds[::-1])
+            if k >= 1 and k <= n:
+                list(ds.shard(k, k - 1))
+        except Exception as e:
+            raise Violation('derive-before-split-raised', f'{kind} n={n} k={k}: {type(e).__name__}: {e}')
     expect = [('s', i) for i in range(n)]
     valid = 1 <= k <= n
     try:
